@@ -8,6 +8,7 @@ import OsmVerif.Oracle.C20
 import OsmVerif.Oracle.C11
 import OsmVerif.Oracle.C17
 import OsmVerif.Oracle.C04
+import OsmVerif.Oracle.C05
 /-! Line-protocol driver: one case per input line `<Cxx> <op> <payload…>`, one output line each. -/
 open OsmVerif.Oracle
 
@@ -24,6 +25,7 @@ def dispatch (line : String) : String :=
   | "C17" :: rest => C17.handle rest
   | "C04" :: rest => C04.handle rest
   | "C03" :: rest => C04.handle rest
+  | "C05" :: rest => C05.handle rest
   | "C16" :: rest => C17.handle rest
   | "C12" :: rest => C11.handle rest
   | _ => "bad-op"
